@@ -318,6 +318,9 @@ class GitStore(Store):
           DuplicateUidError: when the uid already exists
         Returns: etag
         """
+        if name == CONFIG_FILENAME:
+            # the collection's own metadata is kept under this name; it is not a member
+            raise InvalidFileContents(content_type, data, "reserved name")
         if content_type is None:
             fi = open_by_extension(data, name, self.extra_file_handlers)
         else:
